@@ -114,7 +114,9 @@ def build(rng, ndefs=None, nuses=None, skeleton=None):
         defs.append(d)
     # near-definitions: paragraphs that look like a definition but are not one (4.7) - they must stay text and define nothing
     for i in range(rng.choice((0, 0, 1, 2))):
-        fake = rng.choice(['[fake%d]: /nowhere trailing words', '[fake%d]: /u "t" trailing', '[fake%d] : /u', '[fake%d]: <unclosed'])
+        fake = rng.choice(['[fake%d]: /nowhere trailing words', '[fake%d]: /u "t" trailing', '[fake%d] : /u', '[fake%d]: <unclosed',
+                           '[fake%d]: /bogus "one\ntwo" junk', "[fake%d]: /bogus 'one\ntwo' junk", '[fake%d]: /bogus (one\ntwo) junk',
+                           '[fake%d]: /bogus "unclosed\ntitle'])
         fake = fake % i
         node = gen.Node('para', inl=[('literal_md', fake)])
         node.fake_label = 'fake%d' % i
@@ -136,7 +138,14 @@ def build(rng, ndefs=None, nuses=None, skeleton=None):
             spelling = BREAKABLE[spelling]
         form = rng.choice(('full', 'collapsed', 'shortcut'))
         image = rng.random() < 0.2
-        uses.append(dict(para=p, path=path, spelling=spelling, form=form, image=image, text=gen.word(rng) + ' ' + gen.word(rng)))
+        text = gen.word(rng) + ' ' + gen.word(rng)
+        if form == 'full' and rng.random() < 0.25:
+            # the link text of a full reference is itself a label that is (probably) defined: only the second label counts,
+            # so with an undefined label the whole thing stays literal
+            text = rng.choice(rng.choice(fams))
+            if rng.random() < 0.5:
+                spelling = 'fake%d' % rng.randint(0, 1)
+        uses.append(dict(para=p, path=path, spelling=spelling, form=form, image=image, text=text))
     return opt, g, blocks, defs, uses
 
 
